@@ -96,7 +96,9 @@ func (e *Engine) VerifyFunc(key string) (res *FuncResult) {
 			}
 		}
 		if !found {
-			res.Err = fmt.Sprintf("UNDECIDED: contract of %s names loop %s which does not exist in the code (loops: %v)", key, id, res.Loops)
+			// the loop structure changed: the invariants of the vanished loop are simply not used; whatever they
+			// were needed for shows up as failing obligations elsewhere
+			res.Assumed = append(res.Assumed, fmt.Sprintf("contract of %s names loop %s which does not exist in the code any more (ignored)", key, id))
 		}
 	}
 	return
